@@ -25,6 +25,8 @@ func main() {
 	switch os.Args[1] {
 	case "check":
 		os.Exit(check(os.Args[2:]))
+	case "checkall":
+		os.Exit(checkAll(os.Args[2:]))
 	case "explain":
 		if len(os.Args) < 3 {
 			usage()
@@ -122,6 +124,43 @@ func check(args []string) (code int) {
 		if st := props.Selftest([]string{id}); st != 0 {
 			return 2
 		}
+	}
+	return code
+}
+
+// checkAll loads the program once and runs every registered check on it
+// without writing evidence (used to try patches: benign refactorings must stay silent).
+func checkAll(args []string) (code int) {
+	fs := flag.NewFlagSet("checkall", flag.ExitOnError)
+	repo := fs.String("repo", "/repo", "repository root")
+	fs.Parse(args)
+	p, err := core.Load(*repo, core.InScope)
+	if err != nil {
+		fmt.Println("CHECKER-ERROR:", err)
+		return 2
+	}
+	var ids []string
+	for id := range props.Registry {
+		ids = append(ids, id)
+	}
+	sort.Strings(ids)
+	for _, id := range ids {
+		func() {
+			defer func() {
+				if r := recover(); r != nil {
+					fmt.Printf("CHECKER-ERROR: %s: panic in checker: %v\n", id, r)
+					code = 2
+				}
+			}()
+			c := core.NewCtx(p, id, "quick")
+			c.Start = time.Now()
+			c.NoWrite = true
+			c.Quiet = true
+			props.Registry[id](c)
+			if rc := c.Finish(); rc != 0 && code == 0 {
+				code = rc
+			}
+		}()
 	}
 	return code
 }
